@@ -74,6 +74,12 @@ type World struct {
 	flowsJudged, flowsDenied, flowsAllowed int
 	followUpDone                           bool
 	c16Skipped                             bool
+
+	// C16 at event quiescence (events.go)
+	view       *Cluster // the cluster as the informer views show it
+	polByRV    map[string]*Policy
+	sh         *shadow
+	sinceJudge []string // events handled since the last judgement
 }
 
 func (w *World) fail(oracle, key, format string, a ...interface{}) {
@@ -86,7 +92,7 @@ func (w *World) fail(oracle, key, format string, a ...interface{}) {
 func (w *World) armed(p string) bool { return w.prop == p }
 
 func newWorld(s *core.Sim, prop, tier string) *World {
-	w := &World{S: s, C: s.C, prop: prop, tier: tier, hostile: prop == "C18", conc: prop == "C19"}
+	w := &World{S: s, C: s.C, prop: prop, tier: tier, hostile: prop == "C18", conc: prop == "C19", polByRV: map[string]*Policy{}, sh: newShadow()}
 	w.K = simkube.New(s)
 	w.Kern = simkernel.New()
 	c := w.C
@@ -117,6 +123,8 @@ func newWorld(s *core.Sim, prop, tier string) *World {
 	if c.Prob(1, 2) {
 		// store = notified prefix: the policies are created after the view is declared
 		w.K.Watch("pods", "namespaces", "networkpolicies")
+		w.view = w.cl.clone()
+		w.view.Pols = map[string]*Policy{}
 		for _, p := range w.cl.polList() {
 			w.mustCreate("networkpolicies", p.api())
 		}
@@ -126,6 +134,7 @@ func newWorld(s *core.Sim, prop, tier string) *World {
 			w.mustCreate("networkpolicies", p.api())
 		}
 		w.K.Watch("pods", "namespaces", "networkpolicies")
+		w.view = w.cl.clone()
 		for _, o := range w.K.List("networkpolicies", "") {
 			w.initialAdds = append(w.initialAdds, o.JSON)
 		}
@@ -141,8 +150,21 @@ func (w *World) mustCreate(kind string, obj interface{}) {
 	if err != nil {
 		panic(err)
 	}
-	if _, code, msg := w.K.Create(nil, kind, b); code != 0 {
+	o, code, msg := w.K.Create(nil, kind, b)
+	if code != 0 {
 		panic(fmt.Sprintf("world create %s: %d %s", kind, code, msg))
+	}
+	w.rememberModel(kind, o)
+}
+
+// rememberModel ties a stored NetworkPolicy version to the world's description of it, so that the informer-view
+// cluster (events.go) can be kept without decoding API objects back.
+func (w *World) rememberModel(kind string, o *simkube.Obj) {
+	if kind != "networkpolicies" {
+		return
+	}
+	if p := w.cl.Pols[o.Key()]; p != nil {
+		w.polByRV[fmt.Sprintf("%s@%d", o.Key(), o.RV)] = p
 	}
 }
 
@@ -151,9 +173,11 @@ func (w *World) mustUpdate(kind string, obj interface{}) {
 	if err != nil {
 		panic(err)
 	}
-	if _, code, msg := w.K.Update(nil, kind, b); code != 0 {
+	o, code, msg := w.K.Update(nil, kind, b)
+	if code != 0 {
 		panic(fmt.Sprintf("world update %s: %d %s", kind, code, msg))
 	}
+	w.rememberModel(kind, o)
 }
 
 func (w *World) mustDelete(kind, ns, name string) {
@@ -319,6 +343,9 @@ func foreignText(k *simkernel.Kernel) string {
 func (w *World) Handle(t *core.Task, r *core.Req) core.Resp {
 	switch {
 	case r.Op == "exec":
+		if f := w.kernelFault(r); f != nil {
+			return *f
+		}
 		return w.Kern.Handle(r)
 	case strings.HasPrefix(r.Op, "view."), simkube.IsAPI(r.Op):
 		if r.Op == "api.list" && len(r.A) > 0 && r.A[0] == "pods" {
@@ -355,6 +382,13 @@ func (w *World) Actions() []core.Action {
 	if !w.ready || w.busy() || w.stage != 0 {
 		return nil
 	}
+	if w.armed("C16") && len(w.sinceJudge) > 0 && !w.firstSync && len(w.initialAdds) == 0 && w.cniPending == nil && len(w.K.PendingKinds()) == 0 {
+		// event quiescence: everything delivered has been handled, nothing is running
+		w.judgeEventQuiescence()
+		if w.S.Viol != nil || w.S.Infra != "" {
+			return nil
+		}
+	}
 	var acts []core.Action
 	if w.firstSync {
 		return []core.Action{{Name: "initial-sync", Do: func() { w.firstSync = false; w.spawnSync("sync:initial") }}}
@@ -382,17 +416,22 @@ func (w *World) deliver(kind string) {
 		return
 	}
 	w.S.Stat("informer.delivered." + kind)
-	if kind == "namespaces" {
-		return // pkg/policy registers no namespace handler
-	}
 	var oldJ, newJ []byte
+	var rv uint64
 	if ev.Old != nil {
 		oldJ = ev.Old.JSON
 	}
 	if ev.New != nil {
 		newJ = ev.New.JSON
+		rv = ev.New.RV
 	}
 	typ := ev.Type.String()
+	if !ev.Tombstone {
+		w.trackDelivery(kind, typ, ev.Key, oldJ, newJ, rv)
+	}
+	if kind == "namespaces" {
+		return // pkg/policy registers no namespace handler
+	}
 	inst := w.inst
 	w.handlers++
 	tomb := ev.Tombstone
@@ -414,6 +453,10 @@ func (w *World) initialAdd() {
 	w.initialAdds = w.initialAdds[1:]
 	inst := w.inst
 	w.handlers++
+	if w.armed("C16") {
+		w.sh.rebuild(w.view)
+		w.sinceJudge = append(w.sinceJudge, "net:ADDED:initial")
+	}
 	t := w.S.Spawn(fmt.Sprintf("net:ADDED:initial-%d", w.handlers), w.proc, func() { eventTask(inst, "networkpolicies", "ADDED", nil, js, false) })
 	t.Tag = "net"
 	w.S.Sig("E:net:ADDED")
@@ -423,6 +466,10 @@ func (w *World) initialAdd() {
 func (w *World) spawnSync(name string) {
 	inst := w.inst
 	w.syncs++
+	if w.armed("C16") && w.view != nil {
+		w.sh.rebuild(w.view)
+		w.sinceJudge = append(w.sinceJudge, name)
+	}
 	t := w.S.Spawn(name, w.proc, func() { syncTask(inst, name) })
 	t.Tag = "sync"
 	w.syncTask = t
